@@ -610,7 +610,11 @@ func runTaintFiltered(c *core.Ctx, keep func(*Sink) bool) {
 		c.Fail(stableSinkName(s), s.Pos, "unsafe origin reaches a PII-free output ("+s.Mode+" position): "+strings.Join(dedupStr(badKeys), "; "), bad...)
 	}
 	if keep != nil {
-		c.Min("filtered sinks", counts["S3"], 5)
+		tot := 0
+		for _, n := range counts {
+			tot += n
+		}
+		c.Min("filtered sinks", tot, 5)
 		return
 	}
 	c.Min("S1 SafeDetails() return sites", counts["S1"], 13)
